@@ -59,7 +59,9 @@ macro_rules! impl_vec1view_for_ndarray {
 
             #[inline]
             fn try_as_slice(&self) -> Option<&[T]> {
-                self.as_slice_memory_order()
+                // only a standard-layout array is its own logical sequence in memory: a reversed
+                // view is contiguous too, but its memory order is the logical order backwards
+                self.as_slice()
             }
 
             #[inline]
